@@ -212,12 +212,13 @@ struct Outcome {
     wire_log: Vec<u8>,
     partial_flush_seen: bool,
     pending_in_write: bool,
+    abandoned_writes: u64,
 }
 
 /// Runs the writer ops, then reads everything with buffers of `rbuf` bytes.
 fn run_ops(ch: &Ch, ops: &[Op], rbuf: usize, handshake_choices: bool, record: bool) -> Outcome {
     let on = std::rc::Rc::new(std::cell::Cell::new(handshake_choices));
-    let mut out = Outcome { obs: 0, violation: None, wire_log: vec![], partial_flush_seen: false, pending_in_write: false };
+    let mut out = Outcome { obs: 0, violation: None, wire_log: vec![], partial_flush_seen: false, pending_in_write: false, abandoned_writes: 0 };
     let mut s = match handshake(ch, &on, record) {
         Ok(s) => s,
         Err(e) => {
@@ -237,17 +238,37 @@ fn run_ops(ch: &Ch, ops: &[Op], rbuf: usize, handshake_choices: bool, record: bo
                 let mut off = 0;
                 while off < data.len() {
                     let mut pended = false;
-                    let r = poll_until(
-                        |cx| {
-                            let r = Pin::new(&mut s.writer).poll_write(cx, &data[off..]);
-                            if r.is_pending() {
-                                pended = true;
+                    // A write that returned Pending may be given up by the caller (its future is dropped,
+                    // e.g. a cancelled write_all): nothing of THIS call was accepted, the stream goes on
+                    // with whatever the caller does next. Giving up is an environment choice.
+                    let mut abandoned = false;
+                    let r = {
+                        let w = Waker::noop();
+                        let mut cx = Context::from_waker(&w);
+                        let mut polls = 0;
+                        loop {
+                            match Pin::new(&mut s.writer).poll_write(&mut cx, &data[off..]) {
+                                Poll::Ready(x) => break Some(x),
+                                Poll::Pending => {
+                                    pended = true;
+                                    polls += 1;
+                                    if polls > 100_000 {
+                                        break None;
+                                    }
+                                    if core::env_choose(ch, 2) == 1 {
+                                        abandoned = true;
+                                        break Some(Ok(usize::MAX));
+                                    }
+                                }
                             }
-                            r
-                        },
-                        100_000,
-                    );
+                        }
+                    };
                     out.pending_in_write |= pended;
+                    if abandoned {
+                        out.abandoned_writes += 1;
+                        log.push_str("abandon;");
+                        break;
+                    }
                     match r {
                         Some(Ok(0)) => {
                             out.violation = Some(format!("poll_write returned 0 for a non-empty buffer (WriteZero loop) during {}", op_name(op)));
@@ -659,6 +680,7 @@ pub fn run(args: &Args) -> Report {
     let mut states = 0u64;
     let mut witnesses_partial = 0u64;
     let mut witnesses_pending = 0u64;
+    let mut witnesses_abandoned = 0u64;
     // (1) every op sequence up to length L with deviation bound d1; (2) selected long sequences, bound d2
     let (l1, d1) = args.tier.pick((2, 1), (3, 1));
     let seqs = sequences(&alphabet, l1);
@@ -692,7 +714,7 @@ pub fn run(args: &Args) -> Report {
         let cfg = ExploreCfg::new(&format!("noise[{}|rbuf={rbuf}]", ops.iter().map(op_name).collect::<Vec<_>>().join(",")), *bound, remaining);
         let st = explore(&cfg, |ch| {
             let o = run_ops(ch, ops, *rbuf, true, true);
-            ExecResult { obs: o.obs, violation: o.violation, nontrivial: true, witnesses: vec![("partially_flushed_frame_observed", o.partial_flush_seen as u64), ("pending_inside_poll_write", o.pending_in_write as u64)] }
+            ExecResult { obs: o.obs, violation: o.violation, nontrivial: true, witnesses: vec![("partially_flushed_frame_observed", o.partial_flush_seen as u64), ("pending_inside_poll_write", o.pending_in_write as u64), ("write_given_up_after_pending", o.abandoned_writes)] }
         });
         total_execs += st.execs;
         total_points += st.choice_points;
@@ -700,6 +722,7 @@ pub fn run(args: &Args) -> Report {
         states += st.execs;
         witnesses_partial += *st.witnesses.get("partially_flushed_frame_observed").unwrap_or(&0);
         witnesses_pending += *st.witnesses.get("pending_inside_poll_write").unwrap_or(&0);
+        witnesses_abandoned += *st.witnesses.get("write_given_up_after_pending").unwrap_or(&0);
         capped |= st.capped;
         rep.absorb("c13", &st, json!({"ops": ops.iter().map(op_name).collect::<Vec<_>>(), "rbuf": rbuf}));
         if stats_json.len() < 6 || !st.violations.is_empty() {
@@ -722,6 +745,9 @@ pub fn run(args: &Args) -> Report {
             rep.machinery_errors.push("vacuous tampering: no edit made the reader fail".into());
         }
     }
+    if witnesses_abandoned == 0 && rep.violations.is_empty() {
+        rep.machinery_errors.push("vacuous: no execution gave up a write after Pending".into());
+    }
     if witnesses_pending == 0 && rep.violations.is_empty() {
         rep.machinery_errors.push("vacuous: no execution had a Pending inside poll_write".into());
     }
@@ -735,7 +761,7 @@ pub fn run(args: &Args) -> Report {
             {"ops": ["write(131043)"], "reader_buffer": 1000, "schedule": "all transport answers default except: Pending at the poll_write that fills the payload buffer"},
             {"tamper": "duplicate frame 1 of write(100),flush,write(200),flush,write(50),shutdown"},
         ],
-        "rule": "executions of the real noise::Stream pair under a sequential driver; a state is one complete execution (choice sequence); transitions are scripted-transport answers (complete / 1 byte / half / Pending); all op sequences up to the tier's length with deviation bound d1, listed long sequences with bound d2; every listed single-point edit of the ciphertext",
+        "rule": "executions of the real noise::Stream pair under a sequential driver; a state is one complete execution (choice sequence); transitions are scripted-transport answers (complete / 1 byte / half / Pending) and, after a Pending poll_write, the caller's choice to give the write up (nothing of that call counts as written); all op sequences up to the tier's length with deviation bound d1, listed long sequences with bound d2; every listed single-point edit of the ciphertext",
         "exhaustive": !capped,
         "capped_by_time_budget": capped,
         "plans": plans.len(),
@@ -745,6 +771,7 @@ pub fn run(args: &Args) -> Report {
         "tamper_edits_rejected_with_error": tst.1,
         "witness_partially_flushed": witnesses_partial,
         "witness_pending_inside_write": witnesses_pending,
+        "witness_write_given_up_after_pending": witnesses_abandoned,
         "explorations": stats_json,
     });
     rep.assumptions = vec!["snow (Noise NN, ChaCha20-Poly1305) is trusted".into(), "the driver is sequential: all writes, then all reads (back-pressure is modelled by Pending answers of the transport, not by a bounded pipe)".into()];
